@@ -100,12 +100,35 @@ def main(argv=None):
 
     ensure_deps()
     t0 = time.time()
+    if a.prop.lower() == "contracts":
+        return contracts_channel(a)
     work = os.path.join(VERIF, ".work", f"{prop}.{os.getpid()}")
     os.makedirs(work, exist_ok=True)
     try:
         return _run(a, prop, work, t0)
     finally:
         shutil.rmtree(work, ignore_errors=True)
+
+
+def contracts_channel(a):
+    """Secondary channel: the repository's own tests re-run with the Problem.solve contracts installed (record-only)."""
+    out = os.path.join(VERIF, "contracts_channel.json")
+    env = worker_env(a.repo)
+    env["VMON_CONTRACTS_OUT"] = out
+    r = subprocess.run([PY, "-m", "pytest", "-q", "-p", "no:cacheprovider", "-p", "vmon.pytest_contracts"], cwd=a.repo, env=env,
+                       capture_output=True, text=True, timeout=1800)
+    print(r.stdout.strip().splitlines()[-1] if r.stdout.strip() else r.stderr[-500:])
+    if not os.path.exists(out):
+        print("INCONCLUSIVE property=contracts reason=plugin wrote no report")
+        return 2
+    rep = json.load(open(out))
+    print("contract evaluations:", {k: v for k, v in rep["events"].items() if k.startswith("evaluated")})
+    if rep["witnesses"]:
+        for w in rep["witnesses"][:10]:
+            print("CONTRACT FIRED:", json.dumps(w)[:400])
+        return 1
+    print("no contract fired on the repository's own tests")
+    return 0
 
 
 def _run(a, prop, work, t0):
